@@ -392,3 +392,22 @@ Fixpoint rd_run (ops : list op) (s : rdstate) (b : belief) : rdstate * belief * 
   end.
 
 Definition rd_init : rdstate := mkRd [] 0 [].
+
+(* A client-side discipline that rules the Redis hazards out: Unlock (for the keys whose
+   flag is set) and IsLockedTTL are only issued for keys the caller currently believes
+   to hold, i.e. never after its own TTL elapsed and never twice. *)
+Definition polite_op (s : rdstate) (b : belief) (p : op) : bool :=
+  match p with
+  | OUnlock o ks => forallb (fun k => believerb b (rd_now s) o k) (rd_unlock_keys (rd_flags s) o ks)
+  | OIsLockedTTL o _ ks => forallb (fun k => believerb b (rd_now s) o k) ks
+  | _ => true
+  end.
+
+Fixpoint rd_polite (ops : list op) (s : rdstate) (b : belief) : bool :=
+  match ops with
+  | [] => true
+  | p :: r =>
+      polite_op s b p &&
+      (let out := rd_step s p in
+       rd_polite r (fst out) (bel_update (rd_tbl (fst out)) (rd_now (fst out)) p (snd out) b))
+  end.
